@@ -313,6 +313,86 @@ func init() {
 			return v
 		}
 	}
+	// unstructured.SetNestedField(obj, value, "key"): with a single path element this is obj[key] = deepcopy(value)
+	specTable[pkgUnstr+".SetNestedField"] = func(e *Exec, cc *callCtx) Val {
+		k := staticSliceLen(cc.common.Args[2])
+		errV := e.fresh(cc.f.prefix+"setnested_err", "Any")
+		if k != 1 {
+			e.note("SetNestedField with a path of length != 1: content map havocked")
+			mt := unalias(cc.args[0].T).Underlying().(*types.Map)
+			dn, _, vn, _ := e.mapNames(mt)
+			e.havocComp(cc.st, dn)
+			e.havocComp(cc.st, vn)
+			return Val{T: cc.resT, Term: errV}
+		}
+		m := cc.args[0]
+		mt := unalias(m.T).Underlying().(*types.Map)
+		e.safety("nilmap", Not(Eq(m.Term, "0")), cc.reach, "SetNestedField on a nil map (assignment to entry in nil map)")
+		e.frameWriteRef(cc.f, cc.st, cc.reach, m.Term, "SetNestedField")
+		// the single key
+		sl := cc.args[2]
+		an, aso := e.arrName(tString)
+		key := Select(Select(e.comp(cc.st, an, aso), app("s_base", sl.Term)), app("s_off", sl.Term))
+		e.declFun("dcval", []string{"Any"}, "Any")
+		e.mapStore(cc.st, mt, m.Term, e.define(cc.f.prefix+"nestedkey", "String", key), app("dcval", cc.args[1].Term))
+		e.assume(Eq(errV, "nil_any"), "SetNestedField with one path element cannot fail")
+		return Val{T: cc.resT, Term: errV}
+	}
+	// unstructured.NestedMap(obj, "key"): a deep copy of obj[key] if it is a map
+	specTable[pkgUnstr+".NestedMap"] = func(e *Exec, cc *callCtx) Val {
+		v := e.havocVal(cc.resT, cc.f.prefix+"nestedmap")
+		e.refBoundNew(cc.st, v)
+		k := staticSliceLen(cc.common.Args[1])
+		if k == 1 {
+			m := cc.args[0]
+			mt := unalias(m.T).Underlying().(*types.Map)
+			sl := cc.args[1]
+			an, aso := e.arrName(tString)
+			key := Select(Select(e.comp(cc.st, an, aso), app("s_base", sl.Term)), app("s_off", sl.Term))
+			has := e.mapHas(cc.st, mt, m.Term, key)
+			val := e.mapGet(cc.st, mt, m.Term, key)
+			e.declFun("dcval", []string{"Any"}, "Any")
+			rt := resTuple(cc).At(0).Type()
+			// found && err == nil ==> result is the (boxed) deep copy of the value; !found ==> nil map
+			e.assume(Implies(And(v.Tup[1].Term, Eq(v.Tup[2].Term, "nil_any")), And(has, Eq(e.reg.box(rt, v.Tup[0].Term), app("dcval", val)), app(">", v.Tup[0].Term, e.compInit[allocComp]))), "NestedMap returns a deep copy of the nested map")
+			e.assume(Implies(Not(v.Tup[1].Term), Eq(v.Tup[0].Term, "0")), "NestedMap returns nil when the field is absent or on error")
+			e.assume(Implies(Not(has), And(Not(v.Tup[1].Term), Eq(v.Tup[2].Term, "nil_any"))), "")
+		}
+		return v
+	}
+	// unstructured.NestedStringMap(obj.content, "metadata", "labels"|"annotations"): the object's label/annotation map
+	specTable[pkgUnstr+".NestedStringMap"] = func(e *Exec, cc *callCtx) Val {
+		v := e.havocVal(cc.resT, cc.f.prefix+"nestedstrmap")
+		e.refBoundNew(cc.st, v)
+		path := constStrings(cc.common.Args[1])
+		if len(path) == 2 && path[0] == "metadata" && (path[1] == "labels" || path[1] == "annotations") {
+			la := path[1]
+			e.declFun("content_owner", []string{"Int"}, "Int")
+			owner := app("content_owner", cc.args[0].Term)
+			if o, ok := e.contentOwner[cc.args[0].Term]; ok {
+				owner = o // obtained from UnstructuredContent() of that very object
+			}
+			d, _ := e.omComp(cc.st, "OM_"+la+"_d", "(Array String Bool)")
+			vv, _ := e.omComp(cc.st, "OM_"+la+"_v", "(Array String String)")
+			dn, ds, vn, vs := e.mapNames(tStringMap)
+			m := v.Tup[0].Term
+			emptyDom := "((as const (Array String Bool)) false)"
+			a := e.allocCtr(cc.st)
+			// no error: a fresh copy of the labels (nil when the field is absent, in which case the object has none)
+			e.assume(Implies(Eq(v.Tup[2].Term, "nil_any"), And(
+				Or(And(Eq(m, "0"), Not(v.Tup[1].Term)), And(app(">", m, a), v.Tup[1].Term)),
+				Implies(Not(v.Tup[1].Term), And(Eq(Select(d, owner), emptyDom), Eq(Select(vv, owner), "((as const (Array String String)) \"\")"))))), "NestedStringMap(metadata."+la+") returns a copy of the object's "+la)
+			cc.st.comps[allocComp] = e.define("ALLOC", "Int", Ite(app(">", m, a), m, a))
+			e.setComp(cc.st, dn, ds, Ite(app(">", m, a), Store(e.comp(cc.st, dn, ds), m, Select(d, owner)), e.comp(cc.st, dn, ds)))
+			e.setComp(cc.st, vn, vs, Ite(app(">", m, a), Store(e.comp(cc.st, vn, vs), m, Select(vv, owner)), e.comp(cc.st, vn, vs)))
+			e.assume(Implies(Not(Eq(v.Tup[2].Term, "nil_any")), Eq(m, "0")), "")
+		}
+		return v
+	}
+	specFuncs["dcval"] = func(e *Exec, env *Env, args []Val) (Val, error) {
+		e.declFun("dcval", []string{"Any"}, "Any")
+		return Val{T: tAny, Term: app("dcval", e.asAny(args[0].T, e.asTerm(args[0])))}, nil
+	}
 	specTable["strings.SplitN"] = func(e *Exec, cc *callCtx) Val {
 		v := e.uninterp("ext_strings.SplitN", cc.args, cc.resT)
 		e.wellFormedResult(v)
@@ -590,4 +670,48 @@ func (e *Exec) sprintfConcat(cc *callCtx) (Term, bool) {
 		return parts[0], true
 	}
 	return app("str.++", parts...), true
+}
+
+// constStrings: the constant strings packed into a variadic ...string argument (nil if not all constant).
+func constStrings(v ssa.Value) []string {
+	sl, ok := v.(*ssa.Slice)
+	if !ok {
+		return nil
+	}
+	al, ok := sl.X.(*ssa.Alloc)
+	if !ok {
+		return nil
+	}
+	arr, ok := unalias(deref(al.Type())).Underlying().(*types.Array)
+	if !ok {
+		return nil
+	}
+	out := make([]string, arr.Len())
+	set := make([]bool, arr.Len())
+	for _, ref := range *al.Referrers() {
+		ia, ok := ref.(*ssa.IndexAddr)
+		if !ok {
+			continue
+		}
+		idx, ok := ia.Index.(*ssa.Const)
+		if !ok {
+			return nil
+		}
+		for _, r2 := range *ia.Referrers() {
+			if st, ok := r2.(*ssa.Store); ok {
+				c, ok := st.Val.(*ssa.Const)
+				if !ok || c.Value == nil || c.Value.Kind() != constant.String {
+					return nil
+				}
+				out[idx.Int64()] = constant.StringVal(c.Value)
+				set[idx.Int64()] = true
+			}
+		}
+	}
+	for _, b := range set {
+		if !b {
+			return nil
+		}
+	}
+	return out
 }
